@@ -64,6 +64,24 @@ impl Prop for C08 {
             if r.p(6) && !html.contains("<table") {
                 html.push_str("<p><a href=\"/77/\"><b><i></i></b></a><a href=\"/78/\"> </a><a href=\"/79/\"></a>tail</p>");
             }
+            // long link targets: the footnote entries are hard-wrapped, over one or several lines, with and without an exact
+            // fit of the last piece
+            let long = r.p(35);
+            if long {
+                let mut out = String::new();
+                let mut rest = html.as_str();
+                while let Some(i) = rest.find("href=\"/") {
+                    let j = i + rest[i + 7..].find('"').map(|x| x + 7).unwrap_or(rest.len() - i);
+                    out.push_str(&rest[..j]);
+                    let n = r.u(70);
+                    for q in 0..n {
+                        out.push((b'a' + ((q * 7 + n) % 26) as u8) as char);
+                    }
+                    rest = &rest[j..];
+                }
+                out.push_str(rest);
+                html = out;
+            }
             for _ in 0..(if tier == Tier::Quick { 3 } else { 6 }) {
                 let deco = match r.b(3) {
                     0 => Deco::Plain,
@@ -75,8 +93,8 @@ impl Prop for C08 {
                 cfg.decorate = r.p(30);
                 cfg.raw = r.p(10);
                 cfg.noborders = r.p(10);
-                let w = 10 + r.u(111);
-                v.push(case(html.clone(), cfg, w, "g-doc"));
+                let w = if long && r.p(70) { 10 + r.u(31) } else { 10 + r.u(111) };
+                v.push(case(html.clone(), cfg, w, if long { "g-doc-long-hrefs" } else { "g-doc" }));
             }
         }
         v
@@ -125,6 +143,38 @@ impl Prop for C08 {
         let side_by_side = dom.has_elem("table") && !c.cfg.raw;
         let mut ms = ms;
         if ms != expect && side_by_side {
+            // a marker hard-wrapped inside a cell continues on the next line of the *same cell*: read the table band by
+            // band (between rules), column by column
+            let mut colwise: Vec<usize> = Vec::new();
+            let mut band: Vec<Vec<String>> = Vec::new();
+            let mut flush = |band: &mut Vec<Vec<String>>, colwise: &mut Vec<usize>| {
+                let ncol = band.iter().map(|l| l.len()).max().unwrap_or(0);
+                for j in 0..ncol {
+                    let t: String = band.iter().filter_map(|l| l.get(j)).map(|s| s.as_str()).collect::<Vec<_>>().join("");
+                    let t: String = t.chars().filter(|ch| !ch.is_whitespace() && !matches!(ch, '>' | '*' | '#')).collect();
+                    colwise.extend(markers(&t));
+                }
+                band.clear();
+            };
+            for l in &ls[..foot_start] {
+                if l.starts_with('─') || l.starts_with('┬') || l.starts_with('┼') || l.starts_with('┴') || l.starts_with('/') {
+                    flush(&mut band, &mut colwise);
+                } else if l.contains('│') {
+                    band.push(l.split('│').map(|x| x.to_string()).collect());
+                } else {
+                    flush(&mut band, &mut colwise);
+                    let t: String = l.chars().filter(|ch| !ch.is_whitespace() && !matches!(ch, '>' | '*' | '#')).collect();
+                    colwise.extend(markers(&t));
+                }
+            }
+            flush(&mut band, &mut colwise);
+            let mut sorted = colwise.clone();
+            sorted.sort();
+            if sorted == expect {
+                ms = expect.clone();
+            }
+        }
+        if ms != expect && side_by_side {
             // In table cells a marker may be hard-wrapped over lines that interleave with other cells, and reading order
             // is not document order.  There the in-text check is: every complete marker found is one of 1..n, none
             // twice; the footnote list (checked below in full) ties k to the k-th link in document order.
@@ -147,6 +197,10 @@ impl Prop for C08 {
         }
         // the footnote list: unwrap at width (entries start with "[k]: ")
         let mut entries: Vec<String> = Vec::new();
+        if foot.iter().any(|l| l.trim().is_empty()) {
+            out.push(viol(format!("blank line inside the footnote list: {:?}", foot)));
+            return out;
+        }
         for l in &foot {
             let starts = l.starts_with('[') && l.contains("]: ") && l[1..].chars().next().map(|ch| ch.is_ascii_digit()).unwrap_or(false);
             if starts {
@@ -181,7 +235,11 @@ impl Prop for C08 {
         match o.text_lines() {
             Some(ls) => {
                 let t = ls.join("\n");
-                let foot: Vec<&String> = ls.iter().filter(|l| l.contains("]: ")).collect();
+                // the trailing block from the last "[1]: " line on, line by line (wrapped entries and blank lines included)
+                let foot: Vec<&String> = match ls.iter().rposition(|l| l.starts_with("[1]: ")) {
+                    Some(i) if c.cfg.footnotes => ls[i..].iter().collect(),
+                    _ => ls.iter().filter(|l| l.contains("]: ")).collect(),
+                };
                 format!("{:?}|{:?}|{}", markers(&t), foot, c.cfg.footnotes)
             }
             None => o.class().into(),
